@@ -346,7 +346,9 @@ func (fx *FnExec) execCallArgs(in ssa.Instruction, c *ssa.CallCommon, res ssa.Va
 	}
 	ct := fx.contractForCall(c)
 	var result Val
-	if ct != nil {
+	if r, ok := fx.tryInlineNew(in, c, ct, args, rtype); ok {
+		result = r
+	} else if ct != nil {
 		result = fx.callWithContract(in, c, ct, args, rtype)
 	} else {
 		result = fx.callHavoc(in, c, args, rtype)
